@@ -33,11 +33,11 @@ Theorem C20_progress :
 Proof. exact progress. Qed.
 Print Assumptions C20_progress.
 
-(* a send call on an open window accepts min(n, window, max_packet - 64) >= 1 bytes: pending strictly
+(* a send call on an open window (by a sender that has not sent EOF) accepts min(n, window, max_packet - 64) >= 1 bytes: pending strictly
    decreases *)
 Theorem C20_send_decreases :
   forall W0 s k n,
-    Inv W0 s -> 0 < ow s -> 0 < n ->
+    Inv W0 s -> eof s = false -> 0 < ow s -> 0 < n ->
     let '(s', r) := step s (OSend k n) in
     r = Z.min n (Z.min (ow s) (omp s - 64)) /\ 0 < r <= n /\ ow s' = ow s - r /\
     obox s' = obox s ++ [mk_msg k r] /\ g_res s' = g_res s + r.
@@ -47,11 +47,15 @@ Print Assumptions C20_send_decreases.
 (* termination: from any reachable state, once the environment has settled (transport delivers, the
    application reads both streams, adjusts are delivered), sendall / sendall_stderr of n bytes
    finishes within n send calls when the environment settles between calls: nothing is left pending,
-   exactly n more bytes were put on the wire and exactly n more were consumed (or discarded and credited) *)
+   exactly n more bytes were put on the wire and exactly n more were consumed (or discarded and credited).
+   `eof s0 = false`: the SENDER itself has not called shutdown_write; the receiver may have half-closed its
+   own sending direction at any point (that is an op of the opposite direction and touches nothing here;
+   the history `ops` may also contain set_combine_stderr calls, OCombine) *)
 Theorem C20_transfer_completes :
   forall W P dmp c ops k n,
     1 <= W -> Forall op_wf ops -> 0 <= n ->
     let s0 := settle (run (init2 W P dmp c) ops) in
+    eof s0 = false ->
     let '(s', p) := transfer (Z.to_nat n) k n s0 in
     p = 0 /\ settled s' /\ emitted s' = emitted s0 + n /\ g_cons s' + g_disc s' = g_cons s0 + g_disc s0 + n.
 Proof. exact transfer_completes. Qed.
